@@ -112,6 +112,10 @@ def do_map(cfg, folder, cleanup, fault=None):
     ishapes = gen_map.internal_shapes_arg(spec)
     if variant == "ishape-int-map" and ishapes:
         ishapes = {k: (v[0] if len(v) == 1 else v) for k, v in ishapes.items()}  # a FRESH dict per call, ints for one axis
+    if variant == "string-ndarray-inputs":
+        # inputs that the resume cannot compare with the recorded ones (np.array_equal raises for string arrays): the run must
+        # then proceed ("hoping for the best"), not refuse
+        inputs = {k: (np.array(v) if isinstance(v, list) else v) for k, v in inputs.items()}
     if variant == "shadowed-default":
         # a root that has a default AND is supplied: the resume compares the pipeline's defaults with the recorded ones
         r0 = sorted(inputs)[0]
@@ -358,6 +362,7 @@ def configs(tier):
             out.append({"pipe": pipe, "storage": "file_array", "start": "fresh", "variant": "scoped", "faults_only": True})
         if pipe in ("two-maps-reduce", "tuple-zip"):
             out.append({"pipe": pipe, "storage": "file_array", "start": "fresh", "variant": "shadowed-default", "faults_only": True})
+            out.append({"pipe": pipe, "storage": "file_array", "start": "fresh", "variant": "string-ndarray-inputs", "faults_only": True})
         if pipe in ("generator-outer", "internal-first-reduce"):
             for v in ("ishape-int-pipefunc", "ishape-int-map"):
                 out.append({"pipe": pipe, "storage": "file_array", "start": "fresh", "variant": v, "faults_only": True})
